@@ -109,6 +109,7 @@ func (ts *treeStorage) Remove(id TreeID) {
 		// other distant node instances of the protocol could ask for the tree even
 		// after we're done locally and then it needs to be kept around for some time
 		case <-timer.C:
+			verifAt("treestorage.timerFired", ts, id)
 			ts.Lock()
 			delete(ts.trees, id)
 			delete(ts.cancellations, id)
